@@ -60,6 +60,21 @@ TABLE.update({
     "C15c": ("C15", "/tmp/seed2/C15/c", "packages at or below the next entry skip proof verification after their hashes went into the overlay: needs a re-sent tile [256,512) with wrong entries followed by a genuine new full tile; level-1 tile then holds unverified hashes", ["C15"]),
     "C15d": ("C15", "/tmp/seed2/C15/d", "ensureCutTiles uploads the cut hash tile before the cut data tile: needs a ticket commit behind the frontier, a failed upload of the cut data tile and a client retry", ["C15"]),
     "C15e": ("C15", "/tmp/seed2/C15/e", "failed mirror-checkpoint Lock.Replace retried with a re-fetched lock without re-checking sizes: needs an old process holding a request between packages and commit while a new process mirrors further; mirror size goes back", ["C15"]),
+    "C01c": ("C01", "/tmp/seed2/C01/c", "LoadLog 'recovers' from a missing staging bundle by resuming from the published tree while keeping the lock token: needs a crash after the lock commit, the bundle lost, a restart and one round; the next commit does not extend the committed tree", ["C06", "C08", "C01"]),
+    "C01d": ("C01", "/tmp/seed2/C01/d", "LoadLog takes the tree-head time from the published checkpoint: needs the published checkpoint behind the lock at restart and a clock not past the lock checkpoint's millisecond", ["C01"]),
+    "C01e": ("C01", "/tmp/seed2/C01/e", "CreateLog uploads _roots.pem and checkpoint before Lock.Create: needs a Lock.Create failure or two racing creations", ["C01", "C06"]),
+    "C02c": ("C02", "/tmp/seed2/C02/c", "clock-progress error turned into a clamp of the tree-head time while leaves keep the unclamped time: needs a non-empty round with the clock at or before the previous tree head", ["C02", "C01", "C04"]),
+    "C02d": ("C02", "/tmp/seed2/C02/d", "cachePut moved right after the lock commit: needs a failed checkpoint upload (or fatal tile upload + restart) followed by a resubmission before the next publication", ["C02", "C07"]),
+    "C02e": ("C02", "/tmp/seed2/C02/e", "issuer_key_hash from chain[1] also behind a precertificate signing certificate: needs add-pre-chain with a CT-EKU signing certificate", ["C09", "C02"]),
+    "C03c": ("C03", "/tmp/seed2/C03/c", "staging bundle discarded right after the tile uploads, before the checkpoint upload: needs a crash / failed upload in that window and a restart", ["C03"]),
+    "C03d": ("C03", "/tmp/seed2/C03/d", "LoadLog discards the staging bundle after applying it: needs two deaths in a row (after the lock commit; then after recovery, before the next publication)", ["C03"]),
+    "C03e": ("C03", "/tmp/seed2/C03/e", "compareFile uses io.ReadFull without tolerating a short last chunk: identical re-upload of an immutable file > 16 KiB and not a multiple of it is refused; needs LocalBackend recovery with large tiles", ["C13", "C03"]),
+    "C06c": ("C06", "/tmp/seed2/C06/c", "SQLite Replace split into SELECT + Go-side compare + unconditional UPDATE: needs two connections whose SELECTs both land before either UPDATE", ["C05", "C06"]),
+    "C06d": ("C06", "/tmp/seed2/C06/d", "CreateLog publishes the checkpoint before Lock.Create: needs instance B past the existence checks while A creates, loads and sequences", ["C06", "C01"]),
+    "C06e": ("C06", "/tmp/seed2/C06/e", "LoadLog folds 'same size, different root' into staging recovery (c1.Tree != c.Tree): needs a validly signed same-size fork published AND the lock checkpoint's staging bundle still present", ["C06"]),
+    "C17c": ("C17", "/tmp/seed2/C17/c", "RunSequencer returns nil on context cancellation: pending waiters panic ('result is missing'), later submissions are queued into the dead pool", ["C17"]),
+    "C17d": ("C17", "/tmp/seed2/C17/d", "deduplication lookups answered before the 'sequencer stopped' check: needs sequence, stop, resubmit the same entry", ["C17"]),
+    "C17e": ("C17", "/tmp/seed2/C17/e", "503 decision keyed on source == ratelimit: an evicted pending submitter gets 500 over HTTP; needs a full pool, a pending low-priority chain and a high-priority arrival", ["C17"]),
 })
 
 
